@@ -193,13 +193,10 @@ inline Number parseNumber(const char* s) {
     }
 
     while (isdigit(*s)) {
-      exponent = exponent * 10 + (*s - '0');
-      if (exponent + exponent_offset > traits::exponent_max) {
-        if (negative_exponent)
-          return Number(is_negative ? -0.0f : 0.0f);
-        else
-          return Number(is_negative ? -traits::inf() : traits::inf());
-      }
+      // saturate: no mantissa can bring such an exponent back in range
+      // (make_float() turns it into zero or infinity)
+      if (exponent < 100000000)
+        exponent = exponent * 10 + (*s - '0');
       s++;
     }
     if (negative_exponent)
